@@ -60,6 +60,11 @@ CHECKS = {
    technique="TLA+ model of the x86-64 walker with the C05 predicates as invariants, exhaustively explored by TLC and replayed for exact agreement on the real walker; for all six walkers, recorded real call stacks from seeded random inputs are judged by TLC (Trace_Walk.tla, exact u64 on limbs)",
    text="C05 is a set of predicates over the produced frames; they are stated once in TLA+ and evaluated (a) as invariants of the amd64 walker model over every small stack/context/rule combination, which the real walker must reproduce exactly, and (b) by TLC on call stacks recorded from the real walk_stack for amd64, x86, arm64 (both layouts), arm and mips under seeded random contexts (0 / 2^32-1 / 2^64-1 / near stack bounds), random stack bytes with planted pointers, stacks at the top of the address space, random module lists and CFI/STACK WIN text that puts the CFA below, at or above sp.",
    note="Trusted: TLC, Trace_Walk.tla, Words.tla (self-tested), harness/src/walk.rs. Arbitrary inputs are sampled, not enumerated, for the architectures without a step model."),
+ "C14": dict(
+   level="model_checking", design_ref="DESIGN.md section 5 'C14'",
+   technique="TLA+ specification of the process-state indexing rules (Processor.tla) with design invariants checked by TLC; every reachable dump description serialised by a frozen independent writer, processed by the real process_minidump and compared field by field",
+   text="The statement is a case analysis; it is transcribed as a TLA+ module whose behaviours build a dump description piece by piece. TLC checks that the requesting thread is never the dump writer, that the exception's thread id is preferred over Breakpad's, and that only the requesting thread ever starts from the exception context; the harness writes each description as a real minidump (x86 and amd64 contexts, exception context located by a two-pass layout, Breakpad info, misc info, /proc status, loaded and unloaded modules) and requires the real ProcessState to match: call stacks per thread entry in order (id, name, info), requesting thread (any admissible index), the context frame 0 came from, crash address incl. 32-bit zero-extension and the >= 2 parameter gate, Windows access-violation reason classes, process id source, per-frame unloaded-module offsets, module lists.",
+   note="Trusted: TLC, Processor.tla, the frozen writer vendor/vf-synth + harness/src/dumpgen.rs, projection in replay_processor.rs. Up to MaxThreads threads; crash reasons for non-Windows platforms and the large code enumerations are not judged; process times are not covered."),
 }
 
 NA_DEFAULT = "check not built yet (work in progress; DESIGN.md section 5 has the planned specification)"
